@@ -38,7 +38,8 @@ R = W.SIMROOT
 ENTRIES = ["py-main-script", "py-sub-script", "ml-script", "py-main-api", "py-sub-api", "ml-api"]
 STRAY_NONSTARTERS = [")", "]", ",", "=", "@@", "$"]
 STRAY_ANY = [";", "}", "{", "(", ")", ",", "*", "&", "@", "<", ">", "const", "class", "static", "virtual",
-             "template", "typedef", "namespace", "enum", "int", "Foo", "x", "::", "=", "pair", "operator+"]
+             "template", "typedef", "namespace", "enum", "int", "Foo", "x", "::", "=", "pair", "operator+",
+             "#", "#pragma", "#define", "\\", "%", "!"]
 MISSPELL = {"class": ["clas", "Class", "klass"], "namespace": ["namespce", "Namespace"],
             "enum": ["enumm", "Enum"]}
 PROBES = ["accepted_after_corruption", "rejected_after_corruption", "multi_file_matlab",
@@ -108,7 +109,7 @@ def corrupt(lexemes, starts, tape, n, late=False):
         kind = tape.wpick(LATE_KINDS, "late-corruption") if late else \
             tape.wpick([("delete", 4), ("duplicate", 3), ("swap", 3), ("stray", 3), ("del-bracket", 2),
                            ("trunc-lex", 2), ("trunc-bytes", 2), ("dup-block", 1), ("stray-toplevel", 2),
-                           ("misspell", 2), ("stray-qualifier", 1.5), ("sig-tail", 2), ("member-head", 1.5), ("drop-default", 1.5)],
+                           ("misspell", 2), ("stray-qualifier", 1.5), ("sig-tail", 2), ("member-head", 1.5), ("drop-default", 1.5), ("mangle-include", 1)],
                           "corruption")
         i = tape.choose(len(lex), "pos")
         if kind == "delete":
@@ -129,6 +130,15 @@ def corrupt(lexemes, starts, tape, n, late=False):
                 lex.insert(k + 1 if (lex[k] == "typedef" or q != "const") else k, q)
             else:
                 lex.insert(i, q)
+        elif kind == "mangle-include":
+            # damage inside a directive lexeme: misspelt / spaced / truncated #include
+            idx = [k for k, t in enumerate(lex) if t.startswith("#include")]
+            if idx:
+                k = idx[tape.choose(len(idx), "which-include")]
+                body = lex[k][len("#include"):]
+                lex[k] = tape.pick(["#inclde", "# include", "#includes", "#incl", "#INCLUDE", "#import"], "mangled") + body
+            else:
+                lex.insert(i, tape.pick(["#pragma once", "#define X 1", "#"], "directive"))
         elif kind == "rename-typedef-target":
             # the typedef now names a template that does not exist: parses, fails at instantiation
             idx = [k for k, t in enumerate(lex) if t == "typedef" and k + 1 < len(lex)]
